@@ -83,6 +83,44 @@ unit("seq.capi.getslice",
      mutants=[mut("no-clamp", "capi.c", "    if (range.end < range.start)\n        range.end = range.start;\n", "", "assertion"),
               mut("end-from-slot-1", "capi.c", "range.end = janet_getendrange(argv, argc, 2, length);", "range.end = janet_getendrange(argv, argc, 1, length);", "assertion")])
 
+# ------------------------------------------------------------------ buffer.c core
+B = dict(src=["buffer.c"], harness=["seq_buffer.c"], defines=["-DSEQ_ELEM_BYTES", "-DSEQ_TRACK_REALLOC"])
+BA = [ALLOC, "memcpy/memset models (seq_common.h): ranges must be valid (memcpy: disjoint) - counted obligations; destination range becomes arbitrary except the byte at the ghost offset",
+      "janet_gcpressure: GC accounting only, no effect on the buffer"]
+FOREIGN = "; a buffer over foreign memory (NO_REALLOC) is never reallocated (raises instead)"
+unit("seq.buffer.ensure",
+     "janet_buffer_ensure (growth >= 1), every size: no overflow in the growth arithmetic, 0 <= count <= capacity and data valid for capacity afterwards, capacity >= requested, count and every byte unchanged" + FOREIGN,
+     "h_buffer_ensure", "janet_buffer_ensure/janet_buffer_ensure_c", assumes=BA, **B,
+     mutants=[mut("no-foreign-check", "buffer.c", "if (capacity <= buffer->capacity) return;\n    janet_buffer_can_realloc(buffer);", "if (capacity <= buffer->capacity) return;", "postcondition"),
+              mut("no-clamp", "buffer.c", "capacity = big_capacity > INT32_MAX ? INT32_MAX : (int32_t) big_capacity;", "capacity = (int32_t) big_capacity;", "overflow|postcondition")])
+unit("seq.buffer.setcount",
+     "janet_buffer_setcount, every size: negative count ignored; else length becomes count, surviving bytes unchanged, every new byte is 0, memset inside the (possibly regrown) block, invariant preserved" + FOREIGN,
+     "h_buffer_setcount", "janet_buffer_setcount/janet_buffer_setcount_c", assumes=BA, **B,
+     mutants=[mut("memset-too-long", "buffer.c", "memset(buffer->data + oldcount, 0, count - oldcount);", "memset(buffer->data + oldcount, 0, count);", "memset model|assigns|pointer"),
+              mut("fill-ones", "buffer.c", "memset(buffer->data + oldcount, 0, count - oldcount);", "memset(buffer->data + oldcount, 1, count - oldcount);", "postcondition")])
+unit("seq.buffer.extra",
+     "janet_buffer_extra, every size and n: raises if count + n > INT32_MAX, no overflow in the doubling; afterwards room for n more bytes, count and every byte unchanged, invariant preserved" + FOREIGN,
+     "h_buffer_extra", "janet_buffer_extra/janet_buffer_extra_c", assumes=BA, **B,
+     mutants=[mut("no-overflow-guard", "buffer.c", "if ((int64_t)n + buffer->count > INT32_MAX) {\n        janet_panic(\"buffer overflow\");\n    }\n    int32_t new_size", "int32_t new_size", "overflow|postcondition"),
+              mut("double-unguarded", "buffer.c", "int32_t new_capacity = (new_size > (INT32_MAX / 2)) ? INT32_MAX : (new_size * 2);", "int32_t new_capacity = new_size * 2;", "overflow"),
+              mut("no-foreign-check", "buffer.c", "if (new_size > buffer->capacity) {\n        janet_buffer_can_realloc(buffer);", "if (new_size > buffer->capacity) {", "postcondition")])
+unit("seq.buffer.push_bytes",
+     "janet_buffer_push_bytes (length >= 0, source outside the buffer block), every size: appends exactly the source bytes, prefix unchanged, raises instead of exceeding INT32_MAX, memcpy ranges valid and disjoint" + FOREIGN,
+     "h_buffer_push_bytes", "janet_buffer_push_bytes/janet_buffer_push_bytes_c", assumes=BA, **B,
+     mutants=[mut("copy-to-start", "buffer.c", "memcpy(buffer->data + buffer->count, string, length);", "memcpy(buffer->data, string, length);", "postcondition|memcpy model"),
+              mut("no-extra", "buffer.c", "    janet_buffer_extra(buffer, length);\n    memcpy", "    memcpy", "memcpy model|postcondition|assigns|overflow")])
+unit("seq.buffer.push_bytes.self",
+     "janet_buffer_push_bytes appending the buffer's own bytes after the caller reserved room (buffer/push-string b b): no reallocation, memcpy source and destination disjoint and inside the block, the appended bytes equal the old prefix",
+     "h_buffer_push_bytes_self", "janet_buffer_push_bytes/janet_buffer_push_bytes_self_c", assumes=BA, **B,
+     mutants=[mut("copy-to-start", "buffer.c", "memcpy(buffer->data + buffer->count, string, length);", "memcpy(buffer->data, string, length);", "postcondition|memcpy model")])
+for bits, nb, m in [(8, 1, mut("no-extra", "buffer.c", "janet_buffer_extra(buffer, 1);\n    buffer->data[buffer->count] = byte;", "buffer->data[buffer->count] = byte;", "pointer_dereference|assigns|postcondition|overflow")),
+                    (16, 2, mut("extra-too-small", "buffer.c", "janet_buffer_extra(buffer, 2);", "janet_buffer_extra(buffer, 1);", "pointer_dereference|assigns|postcondition|overflow")),
+                    (32, 4, mut("extra-too-small", "buffer.c", "janet_buffer_extra(buffer, 4);", "janet_buffer_extra(buffer, 3);", "pointer_dereference|assigns|postcondition|overflow")),
+                    (64, 8, mut("wrong-shift", "buffer.c", "buffer->data[buffer->count + 7] = (x >> 56) & 0xFF;", "buffer->data[buffer->count + 7] = (x >> 48) & 0xFF;", "postcondition"))]:
+    unit("seq.buffer.push_u%d" % bits,
+         "janet_buffer_push_u%d, every size: appends the %d byte(s) of x in little-endian order, prefix unchanged, raises instead of exceeding INT32_MAX, every write inside the block" % (bits, nb) + FOREIGN,
+         "h_buffer_push_u%d" % bits, "janet_buffer_push_u%d/janet_buffer_push_u%d_c" % (bits, bits), assumes=BA, mutants=[m], **B)
+
 json.dump({"defaults": {"props": ["C04", "C17"], "mode": "dfcc", "timeout": 120, "object_bits": 7, "checks": CHECKS}, "units": units},
           open(os.path.join(V, "units", "C04_seq.json"), "w"), indent=1)
 print(len(units), "units")
